@@ -20,15 +20,11 @@ Definition eval07 (c : case07) : verdict :=
   let g := c_g c in
   let ws := c_ws c in
   let p0 := c_p0 c in
-  let r := fm cfg (fm_fuel g p0) g ws p0 (c_orc c) in
-  let corr :=
-    match r, c_impl c with
-    | Ok (FmOk p mpp rpp), IOk p' =>
-        list_eqb N.eqb p p' && list_eqb N.eqb mpp (c_mpp c) && list_eqb N.eqb rpp (c_rpp c)
-    | Err e, IErr code a b => err_matches e code a b
-    | Panic _, IPanic => true
-    | _, _ => false
-    end in
+  (* fuel: [fm_fuel] (initial cut + 2 passes) suffices inside the contract (C07_terminates; every
+     theorem holds for any fuel).  Outside it -- a non-symmetric matrix -- the tracked cut can go
+     down for ever, and a bounded max_passes lets the code make more passes than that: one more
+     unit per recorded pass, so that such a run is replayed to its end. *)
+  let r := fm cfg (fm_fuel g p0 + length (c_orc c)) g ws p0 (c_orc c) in
   let pw := (load ws p0 0, load ws p0 1) in
   (* usage contract of the property *)
   let in_contract :=
@@ -36,6 +32,18 @@ Definition eval07 (c : case07) : verdict :=
     && symmetricb g && no_self_loopb g && pos_edgesb g
     && forallb (fun w => 0 <=? w) ws && forallb (fun x => (x <=? 1)%N) p0
     && match fm_cap mi pw with Some _ => true | None => false end   (* the cap converts to i64 *) in
+  let corr :=
+    match r, c_impl c with
+    | Ok (FmOk p mpp rpp), IOk p' =>
+        list_eqb N.eqb p p' && list_eqb N.eqb mpp (c_mpp c) && list_eqb N.eqb rpp (c_rpp c)
+    | Err e, IErr code a b => err_matches e code a b
+    | Panic _, IPanic => true
+    (* a hang outside the contract (release build, non-symmetric matrix, unbounded passes: the
+       tracked cut decreases for ever) cannot be replayed -- the trace is cut by the watchdog --
+       and is no alarm; inside the contract it is one (and [prop] below is false) *)
+    | _, IHang => negb in_contract
+    | _, _ => false
+    end in
   let prop :=
     if in_contract then
       match fm_cap mi pw, c_impl c with
